@@ -341,6 +341,15 @@ def pose_class(a, m, needs):
         m = np.asarray(m, float)
         if (np.abs(m) <= 1e-7 * np.abs(m).max()).any():
             tags.append("mag-zero-component")
+        # the attitude of the east-north-up triad of (a, m) is numerically a half-turn (1 + trace lost to rounding): the pose at which a
+        # trace-based matrix-to-quaternion formula divides by zero, a neighbourhood of ~1e-7 rad around e.g. every inverted pose
+        if np.linalg.norm(a) > 0 and np.linalg.norm(np.cross(m, a)) > 0:
+            H = np.cross(m, a)
+            H = H / np.linalg.norm(H)
+            z = a / np.linalg.norm(a)
+            M_ = np.cross(z, H)
+            if 1.0 + (H[0] + M_[1] + z[2]) < 1e-12:
+                tags.append("triad-attitude-half-turn")
     return "pose:special(" + "+".join(tags) + ")" if tags else "pose:generic"
 
 
